@@ -23,6 +23,8 @@ WHAT = {
                            "(Query/Batch.attempt feed the shared counter)",
     "attempt-after-result": "a request for the statement was sent after the caller had got its result (the executions' "
                             "context is cancelled when executeQuery returns; a losing execution must stop)",
+    "retry-decision-not-as-documented": "a shipped retry policy decided differently from its godoc (retried / not retried "
+                                        "for this error kind, write type, acknowledgements)",
     "retry-wrong-host": "a retry did not go where the policy's decision says (Retry: same host, RetryNextHost: "
                         "the next usable host offered by the host selection policy)",
     "retry-without-decision": "a retry was made without asking RetryPolicy.GetRetryType",
@@ -119,7 +121,7 @@ def _tlc_traces(ctx, traces, nshards):
 
     mon, acc, st, trn = {}, set(), 0, 0
     with cf.ThreadPoolExecutor(nshards + 2) as ex:
-        early = [ex.submit(monr, p) for p in (_shard(ctx, traces, sorted(noconf), 2, "wire") if noconf else [])]
+        early = [ex.submit(monr, p) for p in (_shard(ctx, traces, sorted(noconf), 1, "wire") if noconf else [])]
         for r in ex.map(conf, _shard(ctx, traces, ids, nshards, "conf")):
             if not r.ok:
                 raise vf.Inconclusive("TLC conformance run on real traces failed: %s\n%s" % (r.error or r.violated, r.out[-2000:]))
@@ -161,8 +163,9 @@ def run(ctx):
         if not quick:  # liveness (<>returned under weak fairness) is part of the thorough tier
             jobs["live"] = ex.submit(vf.run_tlc, ctx, "MC_Executor", "MC_Executor_live.cfg", workers=2, timeout=900, heap="2g")
         jobs["defect"] = ex.submit(vf.run_tlc, ctx, "MC_Executor", "MC_Executor_defect.cfg", workers=1, timeout=300, heap="2g")
-        jobs["witness"] = ex.submit(vf.run_tlc, ctx, "MC_Executor", "MC_Executor_witness.cfg", workers=2, timeout=600, heap="2g")
-        jobs["tempting"] = ex.submit(vf.run_tlc, ctx, "MC_Executor", "MC_Executor_tempting.cfg", workers=1, timeout=300, heap="2g")
+        if not quick:  # tightness of the attempt bound: thorough tier
+          jobs["witness"] = ex.submit(vf.run_tlc, ctx, "MC_Executor", "MC_Executor_witness.cfg", workers=2, timeout=600, heap="2g")
+          jobs["tempting"] = ex.submit(vf.run_tlc, ctx, "MC_Executor", "MC_Executor_tempting.cfg", workers=1, timeout=300, heap="2g")
         jobs["stuck"] = ex.submit(vf.run_tlc, ctx, "MC_Executor", "MC_Executor_stuck.cfg", workers=1, timeout=300, heap="2g",
                                   deadlock=False)
         jobs["rounds"] = ex.submit(_cases_from, ctx, "MC_Executor_cancelrounds.cfg", "dump_rounds")
@@ -182,6 +185,8 @@ def run(ctx):
     # negative controls: the model of the code as it is violates the documented clause; the bound
     # budget + executions is reached; budget + 1 is too tight under speculation
     for k, inv in (("defect", "NonIdemNeverRetried"), ("witness", "BoundNotReached"), ("tempting", "TemptingBound")):
+        if k not in res:
+            continue
         if res[k].violated != inv:
             raise vf.Inconclusive("control run %s: expected TLC to violate %s, got violated=%s error=%s" % (
                 k, inv, res[k].violated, res[k].error))
@@ -271,6 +276,17 @@ def run(ctx):
     ctx.log("real executions recorded: %d replayed (%d exactly as the model behaviour), %d free running, %d end to end" % (
         len(sums), sum(1 for s in sums if s["exact"]), len(fsums) - len(esums), len(esums)))
 
+    # ---------------------------------------------------------------- 3c. the shipped policies, row by row
+    rows_p = os.path.join(ctx.tmp, "c13_policy_rows.ndjson")
+    rc, out4 = vf.run_gotest(ctx, binary, "^TestVfC13PolicyTable$", env={"VF_ROWS": rows_p}, timeout=300)
+    mrows = re.search(r"^VFC13ROWS (\d+)$", out4, re.M)
+    if not mrows or int(mrows.group(1)) < 100:
+        raise vf.Inconclusive("policy table driver gave no rows:\n" + out4[-2000:])
+    # (judged by TLC concurrently with the trace validation below)
+    _polx = cf.ThreadPoolExecutor(1)
+    _polf = _polx.submit(vf.run_tlc, ctx, "Trace_ExecutorPol", "Trace_ExecutorPol.cfg", workers=1, heap="1g", timeout=300,
+                         env={"VF_TRACE": rows_p}, deadlock=False, name="c13_policy_rows", quiet=True)
+
     # ---------------------------------------------------------------- 4. TLC over the real traces
     # A replay whose recorded trace is event for event the model behaviour it was generated from needs no second
     # opinion: TLC produced that behaviour with NoViolation checked on it (the dump configurations).  Equality
@@ -280,7 +296,7 @@ def run(ctx):
     same = [t for t in traces if t in casesby0 and [ev6(e) for e in traces[t][1:-1]] == [ev6(e) for e in casesby0[t]["hist"]]]
     bound_by_equality = set(t for i, t in enumerate(same) if i % 8 != 0)
     totlc = collections.OrderedDict((t, traces[t]) for t in traces if t not in bound_by_equality)
-    mon, acc, tst, ttr = _tlc_traces(ctx, totlc, 4 if quick else 14)
+    mon, acc, tst, ttr = _tlc_traces(ctx, totlc, 3 if quick else 14)
     for t in bound_by_equality:
         evs = traces[t]
         mon[t] = dict(id=t, viol=[], first=0, execs=len({e["e"] for e in evs if e["e"] > 0}),
@@ -288,6 +304,22 @@ def run(ctx):
         acc.add(t)
     ctx.log("%d replays equal their model behaviour event for event (%d of them also validated by TLC)" % (
         len(same), len(same) - len(bound_by_equality)))
+    rt = _polf.result()
+    _polx.shutdown()
+    judged = re.findall(r'<<"ROWS", (\d+)>>', rt.out)
+    if not rt.ok or not judged or int(judged[-1]) != int(mrows.group(1)):
+        raise vf.Inconclusive("policy table: TLC judged %s of %s rows: %s\n%s" % (judged, mrows.group(1), rt.error, rt.out[-1500:]))
+    badrows = vf.tlc_printed(rt.out, "ROWBAD")
+    for row in badrows[:20]:
+        key = "retry-decision-not-as-documented" if row["ev"] == "decide" else "retry-budget-miscounted"
+        ctx.violation(key, "%s; real %s policy object (budget %d): %s" % (
+            WHAT[key], row["policy"], row["poln"],
+            ("GetRetryType(%s) = %s" % (row["y"], row["x"])) if row["ev"] == "decide" else
+            ("Attempt with Attempts() = %d answered %s" % (row["n"], row["x"]))), dict(row=row))
+    ctx.log("policy table: %s rows of the real Simple / ExponentialBackoff / DowngradingConsistency policies judged by TLC, %d contradict the godoc table" % (
+        judged[-1], len(badrows)))
+    nrows = int(judged[-1])
+
     if set(mon.keys()) != set(traces.keys()):
         raise vf.Inconclusive("monitor produced %d verdicts for %d traces" % (len(mon), len(traces)))
     _confirm_timing_dependent(ctx, binary, cases, traces, sumby, mon)
@@ -307,7 +339,7 @@ def run(ctx):
         model_configs=[dict(cfg=main_cfg, distinct=mc.distinct, generated=mc.generated, depth=mc.depth),
                        ] + ([dict(cfg="MC_Executor_live.cfg", distinct=res["live"].distinct, generated=res["live"].generated)]
                             if "live" in res else []),
-        cancel_round_replays=len(round_cases),
+        cancel_round_replays=len(round_cases), policy_table_rows_judged=nrows,
         controls=dict(wait_results_only_variant_refuted="Terminates", defect_model_violates="NonIdemNeverRetried", bound_reached="budget + executions (5 = 2 + 3)",
                       tempting_bound_violated="budget + 1"),
         model_behaviours_replayed=len(cases), sequential_behaviours=len(seq_cases), concurrent_behaviours=len(conc_cases),
@@ -386,7 +418,7 @@ def _verdicts(ctx, cases, traces, sumby, mon, acc):
         if s["panic"]:
             keys.append("executor-panic")
         tr = traces[tid]
-        hdr = {k: tr[0][k] for k in ("hosts", "polkind", "poln", "allow", "k", "idem", "policy", "mode", "stmt", "observer", "entries") if k in tr[0]}
+        hdr = {k: tr[0][k] for k in ("hosts", "polkind", "poln", "allow", "k", "idem", "policy", "mode", "stmt", "observer", "entries", "setter") if k in tr[0]}
         # the statement kind is part of this class: Query.execute and Batch.execute / Conn.executeBatch hand the
         # executor's context to the connection in different places
         keys = [k + ":" + hdr.get("stmt", "?") if k == "attempt-after-result" else k for k in keys]
